@@ -198,9 +198,38 @@ def _assigns_to(stmts, test):
     return False
 
 
+def _inline_private_helpers(cls):
+    """`self._helper(args)` used as a statement, where `_helper` is a method of the same class whose body is straight-line
+    code without a value-returning `return`: replaced by a copy of that body (an extracted helper means what its body
+    means at the call site; the matchers below are structural and do not depend on parameter names).  Two passes."""
+    import copy
+    methods = {m.name: m for m in cls.body if isinstance(m, ast.FunctionDef)}
+
+    def body_of(m):
+        b = [st for st in m.body if not (isinstance(st, ast.Expr) and isinstance(st.value, ast.Constant))]
+        if any(isinstance(x, ast.Return) and x.value is not None for st in b for x in ast.walk(st)):
+            return None
+        return b
+
+    class T(ast.NodeTransformer):
+        def visit_Expr(self, node):
+            c = node.value
+            if isinstance(c, ast.Call) and isinstance(c.func, ast.Attribute) and isinstance(c.func.value, ast.Name) \
+                    and c.func.value.id == "self" and c.func.attr.startswith("_") and c.func.attr in methods:
+                b = body_of(methods[c.func.attr])
+                if b is not None:
+                    return [copy.deepcopy(st) for st in b]
+            return node
+    for _ in range(2):
+        for m in list(methods.values()):
+            T().visit(m)
+    ast.fix_missing_locations(cls)
+
+
 def translate_guards(net) -> list:
     global _HELPERS
     N = _cls(net, "Network")
+    _inline_private_helpers(N)
     _HELPERS = N
     L = ["", "/-! ### guards of network.py, translated from the AST (atoms are named in the parameter list) -/"]
 
@@ -303,7 +332,8 @@ def translate_guards(net) -> list:
 
     # --- get_peers_for_service: which cached peers survive a cache hit? -----------------------------------------------
     fn = _fn(N, "get_peers_for_service")
-    comps = [n for n in ast.walk(fn) if isinstance(n, ast.ListComp) and n.generators[0].ifs]
+    comps = [n for n in ast.walk(fn) if isinstance(n, ast.ListComp) and n.generators[0].ifs
+             and not _is_self_attr(n.generators[0].iter, "verified_peers")]      # (a scan written as a comprehension is the miss path)
     if len(comps) != 1:
         raise TranslatorError("get_peers_for_service: the filtering list comprehension of the cache-hit path not found")
 
@@ -550,13 +580,40 @@ def translate() -> str:
     # --- Network defaults ---
     net = ast.parse((REPO / "ipv8/peerdiscovery/network.py").read_text())
     caps = {}
+    # module-level (and class-level) names bound exactly once to an integer literal may stand for that literal
+    named, seen = {}, {}
+    for scope in (net.body, _cls(net, "Network").body):
+        for st in scope:
+            if isinstance(st, ast.AnnAssign) and st.value is not None:
+                st = ast.Assign(targets=[st.target], value=st.value)
+            if isinstance(st, ast.Assign) and len(st.targets) == 1 and isinstance(st.targets[0], ast.Name):
+                nm = st.targets[0].id
+                seen[nm] = seen.get(nm, 0) + 1
+                if isinstance(st.value, ast.Constant) and isinstance(st.value.value, int) and not isinstance(st.value.value, bool):
+                    named[nm] = st.value.value
+    for other in ast.walk(net):      # a name that is assigned anywhere else (global rebinding) is not a constant
+        if isinstance(other, (ast.Assign, ast.AugAssign, ast.AnnAssign)):
+            for tg in (other.targets if isinstance(other, ast.Assign) else [other.target]):
+                if isinstance(tg, ast.Name) and tg.id in named and other not in net.body and other not in _cls(net, "Network").body:
+                    seen[tg.id] = seen.get(tg.id, 0) + 1
+
+    def int_value(v):
+        if isinstance(v, ast.Constant) and isinstance(v.value, int):
+            return v.value
+        if isinstance(v, ast.Name) and v.id in named and seen.get(v.id) == 1:
+            return named[v.id]
+        if isinstance(v, ast.Attribute) and isinstance(v.value, ast.Name) and v.value.id in ("self", "Network") \
+                and v.attr in named and seen.get(v.attr) == 1:
+            return named[v.attr]
+        return None
     for n in ast.walk(_fn(_cls(net, "Network"), "__init__")):
         if isinstance(n, ast.AnnAssign) and n.value is not None:
             n = ast.Assign(targets=[n.target], value=n.value)
         if isinstance(n, ast.Assign) and isinstance(n.targets[0], ast.Attribute) and n.targets[0].attr.endswith("_cache_size"):
-            if not (isinstance(n.value, ast.Constant) and isinstance(n.value.value, int)):
-                raise TranslatorError(f"{n.targets[0].attr} default is not an integer literal")
-            caps[n.targets[0].attr] = n.value.value
+            val = int_value(n.value)
+            if val is None:
+                raise TranslatorError(f"{n.targets[0].attr} default is neither an integer literal nor a constant bound once to one")
+            caps[n.targets[0].attr] = val
     for need in ("reverse_ip_cache_size", "reverse_intro_cache_size", "reverse_service_cache_size"):
         if need not in caps:
             raise TranslatorError(f"{need} default not found")
